@@ -365,7 +365,7 @@ func (w *worker) both(data []byte, mode string) {
 var alphabet = []byte{0x00, 0x01, 0x08, 0x09, 0x0d, 0x10, 0x40, 0x41, 0x48, 0x49, 0xd1, 0xe0, 0xf0, 0xff, 0x2c}
 
 func TestRun(t *testing.T) {
-	rec := vr.New("C02", "inputs: (i) every byte string of length <= 4 (quick) / <= 5 (thorough) over a 15-symbol alphabet of structurally interesting bytes, prefixed for the datagram coder also with each of 4 valid 4-byte headers; (ii) every first byte 0..255 x PRNG tails of 0..40 bytes; (iii) mutations of valid encodings from the C01 generator: truncation at every offset, every single-bit flip in the first 24 bytes, boundary-value substitution at every offset, splices, inserted/duplicated ranges, trailing garbage after a complete stream frame; (iv) 32-bit extended stream lengths near 2^32; (vi) option-length grid: 26 option numbers x 16 value lengths x 10 codes incl. the stream signalling codes 7.01-7.05; (v) a sample of all of these through udp Conn.Process on a live in-memory connection. Both coders, header pre-parser, pooled API on fresh/recycled messages. Distinct = distinct inputs (hashed); non-trivial = every input (each is compared with the reference).")
+	rec := vr.New("C02", "inputs: (i) every byte string of length <= 4 (quick) / <= 5 (thorough) over a 15-symbol alphabet of structurally interesting bytes, prefixed for the datagram coder also with each of 4 valid 4-byte headers; (ii) every first byte 0..255 x PRNG tails of 0..40 bytes; (iii) mutations of valid encodings from the C01 generator: truncation at every offset, every single-bit flip in the first 24 bytes, boundary-value substitution at every offset, splices, inserted/duplicated ranges, trailing garbage after a complete stream frame; (iv) 32-bit extended stream lengths near 2^32; (vi) option-length grid: 26 option numbers x 16 value lengths x 10 codes incl. the stream signalling codes 7.01-7.05; (v) a sample of all of these through udp Conn.Process on a live in-memory connection; (vii) messages decoded by a live stream connection and kept by the application while later frames overwrite the connection's receive buffer. Both coders, header pre-parser, pooled API on fresh/recycled messages. Distinct = distinct inputs (hashed); non-trivial = every input (each is compared with the reference).")
 	defer rec.Flush(true)
 	seed := vr.Seed()
 	nw := runtime.GOMAXPROCS(0)
@@ -723,6 +723,7 @@ func TestRun(t *testing.T) {
 		rec.Violation("C02/udp-process/does-not-return", "Conn.Process did not return within the watchdog", last)
 	}
 	cc.Close()
+	liveStream(rec, vr.Scale(30, 600), seed)
 	close(stop)
 	rec.Sample(mkCase("tcp", []byte{0xf0, 0xff, 0xfe, 0xff, 0x32, 0x01}, "ext-length"))
 	rec.Sample(mkCase("udp", []byte{0x49, 0x01, 0, 1, 1, 2, 3, 4, 5, 6, 7, 8, 9}, "tkl9"))
